@@ -98,4 +98,55 @@ def run(ctx, rep):
         sk = hirq.skeleton(t["body"], lambda n: None).replace("local:", "")
         rep.ob("terminator", "includes-nul", "memchr(lit:0, source).map(|i| (i + lit:1))" in sk, f"length = memchr(0)+1: {sk[:140]}", t["file"], t["line"])
         rep.ob("terminator", "missing-is-error", ".context(" in sk, "no terminator -> error (context on None)", t["file"], t["line"])
+    # ---- a string that starts exactly on a work-group boundary belongs to the group that starts there ------------------------
+    # Merge input is cut into groups at fixed byte offsets. A group whose range starts inside a section must start at the first string
+    # that *begins* in its range: if the byte before the range start is NUL the range start is itself a string start and must be kept;
+    # only otherwise may it skip to after the next NUL (the straddling string belongs to the previous group). Skipping unconditionally
+    # loses the string that begins exactly on the boundary: neither group emits it and references to it read unrelated bytes.
+    rep.rule("boundary-string", "in process_input_section the skip to the next NUL (memchr) is taken only on the `byte before the range start != 0` edge; the index tested is range start - 1")
+    import decide as _d
+    from mir import callee_key as _ck
+    pis = F.body("libwild::string_merging::process_input_section")
+    if pis is None:
+        rep.lost("boundary-string", "string_merging::process_input_section")
+    else:
+        flow_, cfg_ = P.flow(pis), P.cfg(pis)
+        full = _d.all_edge_atoms_full(P, F, pis)
+        ef = cfg_.edge_facts()
+        skips = [(bi, t) for bi, t in flow_.calls() if (_ck(t["f"]) or "").startswith("memchr::memchr")]
+        rep.ob("boundary-string", "skip-site", len(skips) >= 1, f"{len(skips)} memchr call(s) in process_input_section", pis.file, pis.line)
+        for bi, t in skips:
+            facts_ = [full[e] for e in ef.get(bi, frozenset()) if e in full]
+            guarded = [a for a, v in facts_ if a.startswith("bin:Eq(") and a.endswith(", 0)") and "remaining" in a and v is False] + \
+                      [a for a, v in facts_ if a.startswith("bin:Ne(") and a.endswith(", 0)") and "remaining" in a and v is True]
+            rep.ob("boundary-string", "skip-guarded", bool(guarded),
+                   (f"the skip is taken only when {guarded[0][4:]} is false (previous byte is not NUL)" if guarded else
+                    "the skip past the next NUL is unconditional: a string beginning exactly at the group boundary is dropped by both groups"), pis.file, t["l"])
+        # the tested byte is remaining[start - 1]
+        idx_ok = False
+        for blk in pis.blocks:
+            for st in blk["s"]:
+                if st["k"] == "assign" and st["rv"]["k"] == "use" and st["rv"]["a"][0] in ("c", "m"):
+                    pl = st["rv"]["a"][1]
+                    for pr_ in pl[1]:
+                        if pr_.startswith("[_"):
+                            il = int(pr_[2:-1])
+                            cur, hops = il, 0
+                            while hops < 4:
+                                hops += 1
+                                ds = flow_.defs.get(cur, [])
+                                if len(ds) != 1 or ds[0][1] == "call":
+                                    break
+                                rv_ = ds[0][3]
+                                if rv_["k"] == "bin" and rv_["op"].startswith("Sub"):
+                                    from mir import op_const as _oc
+                                    c_ = _oc(rv_["b"])
+                                    if c_ and c_.get("val") == 1 and pis.locals[st["p"][0]].strip() == "u8":
+                                        idx_ok = True
+                                    break
+                                if rv_["k"] in ("use", "cast") and rv_["a"][0] in ("c", "m"):
+                                    cur = rv_["a"][1][0]
+                                    continue
+                                break
+        rep.ob("boundary-string", "index-is-start-minus-1", idx_ok, "a byte is read at an index computed as <range start in section> - 1", pis.file, pis.line)
     rep.assume("equality of output bytes with input bytes at every reference is a run-time matter")
